@@ -5,7 +5,7 @@ cpu_percent()/cpu_times_percent() in blocking and non-blocking, system-wide and 
 Process.cpu_percent over (dproc, dwall) grids and blocking/non-blocking call sequences."""
 import itertools
 
-from vf.harness import use_world, outcome, freeze, sample, guarded
+from vf.harness import use_world, outcome, freeze, sample, guarded, add_histories, history_of
 from vf.simk.world import World, CLK_TCK
 
 ID = "C07"
@@ -280,12 +280,12 @@ def run(ctx):
     cases = build_cases(ctx.thorough)
     n = max(1, len(cases) // (ctx.ncpu * 6))
     chunks = [(ctx.seed, cases[i:i + n]) for i in range(0, len(cases), n)]
-    res = [r for ch in ctx.pmap(worker, chunks, chunk=1) for r in ch]
+    res = [r for ch in ctx.pmap_fresh(worker, chunks) for r in ch]
     viols, kinds = [], {}
-    for c, bad in zip(cases, res):
+    for _i, (c, bad) in enumerate(zip(cases, res)):
         kinds[c[0]] = kinds.get(c[0], 0) + 1
         for cause, msg in bad:
-            viols.append({"cause": cause, "msg": msg, "case": list(c)})
+            viols.append({"cause": cause, "msg": msg, "case": list(c), "_idx": _i})
     from vf.checks import c07s
     ctx.close()
     sres = c07s.run_s(ctx)
@@ -296,7 +296,7 @@ def run(ctx):
                    "3-call sequence of Process.cpu_percent in virtual time; distinct by construction",
            "per_dimension": kinds, "delta_values": {"product": D3, "pairs": D6}, "exhaustive": True,
            "samples": [list(c) for c in sample(cases, 6)]}
-    return {"coverage": cov, "violations": viols,
+    return {"coverage": cov, "violations": add_histories(viols, cases, n, list),
             "assumptions": ["kernel invariant: guest time is contained in user time (dguest <= duser, dguest_nice <= dnice)",
                             "100 ticks per second"]}
 
@@ -307,8 +307,9 @@ def replay(ctx, case):
         return c07s.replay_s(ctx, case)
     w = mk_world(ctx.seed)
     use_world(w)
-    c = list(case)
-    if c[0] == "proc":
-        c[1] = [tuple(x) for x in c[1]]
-    bad = guarded(run_case, tuple(c), w)
+    for c in history_of(case):
+        c = list(c)
+        if c[0] == "proc":
+            c[1] = [tuple(x) for x in c[1]]
+        bad = guarded(run_case, tuple(c), w)
     return {"violated": bool(bad), "viols": bad}
